@@ -1388,6 +1388,180 @@ def check_history(ctx, P, only=None):
 
 
 # ------------------------------------------------------------------------------------------------
+# large requests: sizes at which an implementation might switch to block-wise evaluation
+# ------------------------------------------------------------------------------------------------
+LARGE_FIXED = [(2000, 1000), (3000, 700), (1500, 699)]
+LARGE_DRAWS = [1000, 699, 1237]               # not multiples of any natural block size
+LARGE_MAX = {'quick': 2 ** 22, 'thorough': 2 ** 23 + 2 ** 21}
+
+
+def _const_int(node):
+    """value of an integer constant expression (2**20, 8 * 1024, 1 << 20, ...) or None"""
+    import ast
+    if isinstance(node, ast.Constant):
+        return node.value if isinstance(node.value, int) and not isinstance(node.value, bool) else None
+    if isinstance(node, ast.BinOp):
+        a, b = _const_int(node.left), _const_int(node.right)
+        if a is None or b is None:
+            return None
+        try:
+            if isinstance(node.op, ast.Pow) and 0 <= b <= 64 and abs(a) <= 1024:
+                return a ** b
+            if isinstance(node.op, ast.Mult):
+                return a * b
+            if isinstance(node.op, ast.LShift) and 0 <= b <= 64:
+                return a << b
+            if isinstance(node.op, ast.Add):
+                return a + b
+            if isinstance(node.op, ast.Sub):
+                return a - b
+            if isinstance(node.op, ast.FloorDiv) and b:
+                return a // b
+        except Exception:                     # noqa: BLE001
+            return None
+    return None
+
+
+def harvest_sizes(P):
+    """integer literals and constant-folded integer expressions >= 1024 in the source of the sampling functions
+    (pygam.py: sample, _sample_coef, _bootstrap_samples_of_smoothing, _simulate_coef_from_bootstraps and whatever private
+    helper of GAM has 'sample' / 'simulate' / 'draw' in its name; distributions.py: *.sample): candidate element counts at
+    which the code switches strategy"""
+    import ast
+    import inspect
+    import textwrap
+    funcs = []
+    for name, f in vars(P.GAM).items():
+        if callable(f) and any(k in name for k in ('sample', 'simulate', 'draw', 'bootstrap', 'cov_factor')):
+            funcs.append(f)
+    import pygam.distributions as Dm
+    for name, cls in vars(Dm).items():
+        if inspect.isclass(cls) and hasattr(cls, 'sample'):
+            funcs.append(cls.sample)
+    out = set()
+    for f in funcs:
+        try:
+            tree = ast.parse(textwrap.dedent(inspect.getsource(f)))
+        except Exception:                     # noqa: BLE001
+            continue
+        for node in ast.walk(tree):
+            v = _const_int(node)
+            if v is not None and 1024 <= v <= 2 ** 40:
+                out.add(int(v))
+    return sorted(out)
+
+
+def large_requests(ctx, thresholds):
+    """(n_rows, n_draws, origin): the fixed large sizes, and for every harvested threshold T two requests whose element count
+    n_rows * n_draws is just above T — n_draws prime-ish, once about one block (T // n_rows a little below n_draws) and once
+    about two and a half blocks"""
+    rng = ctx.subrng('large')
+    cap = LARGE_MAX[ctx.tier]
+    reqs = [(r, d, 'fixed') for (r, d) in (LARGE_FIXED if ctx.tier != 'quick' else LARGE_FIXED[:2] + [LARGE_FIXED[2]])]
+    for T in thresholds:
+        for shape in ('one-block', 'blocks'):
+            nd = rng.choice(LARGE_DRAWS)
+            if shape == 'one-block':
+                nr = T // nd + rng.choice([1, 2, 3, 7, 13])
+            else:
+                nr = (5 * T) // (2 * nd) + rng.choice([1, 3, 7])
+            while nr < 8:                     # small thresholds: keep a few rows, more draws
+                nd, nr = max(nd // 2, 3) | 1, nr * 2 + 1
+            if nr * nd <= T or nr * nd > cap:
+                ctx.count('large-threshold-skipped', '%d (%d x %d)' % (T, nr, nd))
+                continue
+            reqs.append((nr, nd, 'literal %d' % T))
+    return reqs
+
+
+def large_query(cfg, n_rows, seed):
+    rs = np.random.RandomState(seed)
+    Xq = np.c_[rs.randint(-26, 283, n_rows) / 256.0, -2.5 + 5 * rs.randint(0, 257, n_rows) / 256.0,
+               rs.randint(0, 4, n_rows).astype(float), rs.choice([-1.0, 0.5, 1.0, 2.0, 0.0], n_rows)]
+    return Xq
+
+
+def check_large(ctx, P, only=None):
+    st_ = 'oracle.large-requests'
+    ctx.stream(st_, 'requests with n_rows x n_draws of 1e6 … 4e6 elements (2000 x 1000, 3000 x 700, 1500 x 699 and sizes just above every '
+                    'integer literal / constant power >= 1024 in the source of the sampling functions, n_draws prime-ish): every entry of '
+                    'sample(mu | y) = pipeline applied to the same-seed coefficient draws of a copy of the model (exact; NumPy oracle only, '
+                    'the rows are too many to send to the Lean driver)')
+    import copy
+    thresholds = harvest_sizes(P)
+    for T in thresholds:
+        ctx.count('large-literal', T)
+    if only is not None:
+        jobs = [only]
+    else:
+        jobs = []
+        reqs = large_requests(ctx, thresholds)
+        rng = ctx.subrng('large-jobs')
+        for li, label in enumerate(['LinearGAM', 'PoissonGAM'] if ctx.tier == 'quick' else ['LinearGAM', 'PoissonGAM', 'LogisticGAM', 'GammaGAM']):
+            cfg = base.make_cfg(ctx.seed, 300000 + li, label, rng.choice(['s0+l1', 's0', 'l0+l1']), ctx.tier)
+            cfg['ns'], cfg['n'] = 5, 45
+            for ri, (nr, nd, origin) in enumerate(reqs):
+                if ctx.tier == 'quick' and origin == 'fixed' and (ri + li) % 2 == 1 and len(reqs) > 3:
+                    continue
+                jobs.append(dict(cfg=cfg, n_rows=nr, n_draws=nd, origin=origin, quantity=['mu', 'y'][(ri + li) % 2],
+                                 at=(ri + 2 * li) % 3 != 0, seed=rng.randrange(2 ** 31)))
+    fitted = {}
+    nfail = 0
+    for job in jobs:
+        cfg = job['cfg']
+        key = json_key(cfg)
+        if key not in fitted:
+            try:
+                gam, X, y, Xq = quiet(base.fit_model, P, cfg)
+                fitted[key] = (gam, copy.deepcopy(gam), fit_info(gam, cfg), X, y)
+            except Exception as e:            # noqa: BLE001
+                fitted[key] = None
+                ctx.count('large-fit-skipped', type(e).__name__)
+        if fitted[key] is None:
+            continue
+        gam, twin, info, X, y = fitted[key]
+        if not (np.isfinite(info['coef']).all() and np.isfinite(info['cov']).all()):
+            continue
+        nr, nd = job['n_rows'], job['n_draws']
+        Xbig = large_query(cfg, nr, job['seed'])
+        sig = dict(label=cfg['label'], mix=cfg['mix'], n_rows=nr, n_draws=nd, origin=job['origin'], quantity=job['quantity'], at=job['at'])
+        ctx.case(st_, sig, nontrivial=True, sample=dict(sig=sig))
+        ctx.count('large-elements', '2^%d' % int(math.log2(nr * nd)))
+        if job['at']:
+            args = (X, y, job['quantity'], nd, Xbig)
+        else:
+            # X itself is the large array (sample_at_X=None); y only has to be a valid response of the same length
+            args = (Xbig, np.resize(y, nr), job['quantity'], nd, None)
+        r = step_problems(info, twin, gam, job['seed'], *args)
+        for note in r['notes']:
+            ctx.disagree(st_, dict(large=job), note, 'stateless sample()', 'history dependence')
+        if r['problems']:
+            r2 = step_problems(info, twin, gam, job['seed'], *args)
+            if r2['problems'] and nfail < MAX_FAILS:
+                nfail += 1
+                detail = {}
+                out, want = r['res'][1], r['want']
+                if out is not None and want is not None and np.shape(out) == np.shape(want):
+                    with np.errstate(all='ignore'):
+                        bad = ~((out == want) | (np.abs(out - want) <= 10 * np.broadcast_to(np.asarray(r['tol'], dtype=float), out.shape)))
+                    rows_bad = np.where(bad.any(axis=1))[0]
+                    detail = dict(wrong_entries=int(bad.sum()), wrong_draws=int(len(rows_bad)),
+                                  first_wrong_draw=int(rows_bad[0]) if len(rows_bad) else None,
+                                  last_wrong_draw=int(rows_bad[-1]) if len(rows_bad) else None,
+                                  got=head(out[rows_bad[0]][:4]) if len(rows_bad) else None,
+                                  expected=head(np.asarray(want)[rows_bad[0]][:4]) if len(rows_bad) else None)
+                ctx.fail(st_, sig, dict(large=job), observed=dict(problems=r['problems'], **detail), expected='every entry (draw d, row i) = '
+                         'g^-1(B(X)_i . draw_d) resp. the family sampler at that mean',
+                         oracle='mu = g^-1(B(requested X) draws^T)^T for the coefficient draws of the same seed, every draw and every row; '
+                                'y = family sampler at the documented parameters')
+
+
+def json_key(d):
+    import json
+    return json.dumps(d, sort_keys=True, default=str)
+
+
+# ------------------------------------------------------------------------------------------------
 def make_cfgs(ctx):
     cfgs, idx = [], 0
     rng = ctx.subrng('cfgs')
@@ -1402,7 +1576,7 @@ def make_cfgs(ctx):
     return cfgs
 
 
-def run(ctx, cfgs=None, force=(), stress=None, history=None):
+def run(ctx, cfgs=None, force=(), stress=None, history=None, large=None):
     P = common.import_pygam()
     ctx.extra['rule'] = ('one case = (model class, term mix, intercept, lam, n, n_splines, quantity, sample_at_X given?, n_draws); '
                          'generators are replaced by recorded closed-form draws, so every case is an exact comparison of the whole pipeline; '
@@ -1422,7 +1596,10 @@ def run(ctx, cfgs=None, force=(), stress=None, history=None):
                        '(Props/C17.lean: sample_stateless); sample.history drives it at every step with the record of the latest fit and the '
                        'rows at the current contents of the array objects.  Not modelled: the refit itself (C01), predict (only interleaved), '
                        'object identity of the arrays (the model has no notion of it: any dependence on it is a disagreement)')
-    full = cfgs is None and stress is None and history is None
+    full = cfgs is None and stress is None and history is None and large is None
+    if large is not None:
+        check_large(ctx, P, only=large)
+        return
     if stress is not None:
         sp = [prepare_stress(P, sc) for sc in stress]
         check_moments(ctx, P, sp, [])
@@ -1443,6 +1620,7 @@ def run(ctx, cfgs=None, force=(), stress=None, history=None):
         check_moments(ctx, P, sp, prepared)
     if full:
         check_history(ctx, P)
+        check_large(ctx, P)
     if (ctx.tier == 'thorough' and full) or 'sample.bootstraps' in force:
         check_bootstraps(ctx, P, prepared)
     if (ctx.tier == 'thorough' and full) or 'sample.statistics' in force:
@@ -1455,6 +1633,8 @@ def replay(ctx, rp):
         return run(ctx, stress=[case['stress']])
     if case.get('history'):
         return run(ctx, history=case['history'])
+    if case.get('large'):
+        return run(ctx, large=case['large'])
     cfg = case.get('cfg')
     if not cfg:
         return run(ctx)
